@@ -625,6 +625,19 @@ def gen_special(rng, hid, which):
         sc.advance(100)
         sc.deliver(s.recs(), 2, v4=True)
         return sc.finish(min(s.ttl_srv, s.ttl_a) * 1000 + 3000)
+    if which == "srv-targets":
+        # a second SRV record (no cache-flush bit) naming another host (with or without addresses)
+        s = Svc(rng, rng.choice(INST_LABELS), TY1, rng.choice(HOSTS), 2)
+        s.ttl_ptr = 4500; s.ttl_srv = 120; s.ttl_a = 120
+        sc.advance(100)
+        sc.deliver(s.recs(flush=rng.random() < 0.5), 2, v4=True)
+        sc.advance(rng.choice([500, 2000]))
+        other = [b"other-host", b"local"]
+        recs = [r_srv(s.inst, other, 9090, 120, cls=1)]
+        if rng.random() < 0.4:
+            recs.append(r_a(other, "192.168.1.77", 120))
+        sc.deliver(recs, 2, v4=True)
+        return sc.finish(rng.choice([3000, 6000]))
     if which == "ptr-variant":
         s = Svc(rng, rng.choice(INST_LABELS), TY1, rng.choice(HOSTS), 2)
         s.ttl_ptr = 4500; s.ttl_srv = 120; s.ttl_a = 120
